@@ -76,8 +76,45 @@ fn mapping(rng: &mut Rng) -> Value {
   if rng.chance(1, 20) { m.remove("to"); }
   Value::Object(m)
 }
+/// Quantities crossing thresholds: many mappings, many alias definitions multiplied together,
+/// long triggers, long letter rows.
+fn big_program(rng: &mut Rng) -> Value {
+  let mut v: Vec<Value> = vec![];
+  match rng.below(4) {
+    0 => { // hundreds of plain mappings
+      let n = [64, 255, 256, 257, 600][rng.below(5)];
+      let pool = ["A", "B", "C", "D", "E", "F", "G", "H", "I", "J", "K", "L", "M", "N", "O", "P", "Q", "R", "S", "T"];
+      for i in 0..n {
+        let full = vec![pool[i % 20], pool[(i / 20 + 7) % 20], "ESC"];
+        let from: Vec<&str> = if i % 3 == 0 { vec![pool[i % 20]] } else if full[0] == full[1] { vec![full[0], "ESC"] } else { full };
+        v.push(json!({"from": from, "to": pool[(i * 7) % 20]}));
+      }
+    }
+    1 => { // aliases with many definitions, multiplied in one trigger
+      let defs = ["LEFTSHIFT", "RIGHTSHIFT", "CAPSLOCK", "TAB", "LEFTCTRL", "RIGHTCTRL", "LEFTALT", "RIGHTALT"];
+      let k = rng.range(2, 8);
+      for d in &defs[..k] { v.push(json!({"from": d, "to": "@a"})); }
+      for d in &defs[..rng.range(1, k)] { v.push(json!({"from": [d, "A"], "to": "@b"})); }
+      for d in &defs[k.saturating_sub(2)..k] { v.push(json!({"from": d, "to": "@c"})); }
+      v.push(json!({"from": ["@a", "@b", "@c", "Q"], "to": ["@a", "X"]}));
+      v.push(json!({"from": ["@a", {"row": "Q"}], "to": {"letters": "abcdefghij"}, "absorbing": "@a"}));
+    }
+    2 => { // a very long trigger and a very long output
+      let pool = ["A", "B", "C", "D", "E", "F", "G", "H", "I", "J", "K", "L", "M", "N", "O", "P", "Q", "R", "S", "T", "U", "V", "W", "X", "Y", "Z"];
+      let n = rng.range(8, 26);
+      v.push(json!({"from": pool[..n].to_vec(), "to": pool[26 - n..].to_vec(), "repeat": {"Special": {"keys": pool[..n].to_vec(), "delay_ms": 1, "interval_ms": 1}}}));
+    }
+    _ => { // rows at and beyond their physical length, every row
+      for r in ["`", "1", "Q", "A", "Z"] { let n = rng.range(9, 15); v.push(json!({"from": ["CAPSLOCK", {"row": r}], "to": {"letters": "abcdefghijklmnopqrstuvwxyz"[..n].to_string()}})); }
+      v.push(json!({"from": "CAPSLOCK", "to": []}));
+    }
+  }
+  json!({"mappings": v})
+}
+
 pub fn layout_program(rng: &mut Rng) -> Value {
   if rng.chance(1, 30) { return junk(rng); }
+  if rng.chance(1, 40) { return big_program(rng); }
   let n = rng.below(6);
   let mut v: Vec<Value> = vec![];
   if rng.chance(1, 2) { v.push(json!({"from": "LEFTSHIFT", "to": "@shift"})); v.push(json!({"from": "RIGHTSHIFT", "to": "@shift"})); }
